@@ -246,6 +246,34 @@ func c13Check(c C13Case) *pbt.Violation {
 		if v := c13CompareSections(back, m, "save", false, ch); v != nil {
 			return v
 		}
+		// a section's block count equals the number of non-air blocks it holds — also for a chunk that was
+		// loaded, and after further SetBlock calls on it
+		for s := range back.Sections {
+			want := 0
+			for _, b := range m.blocks[s] {
+				if !airStates[b] {
+					want++
+				}
+			}
+			if got := int(back.Sections[s].BlockCount); got != want {
+				return pbt.V("c13.save.blockcount", "a section's block count equals the number of non-air blocks it holds", "section %d after ChunkFromSave: BlockCount=%d, it holds %d non-air blocks", s, got, want)
+			}
+			pool := c.Pools[s]
+			for j := 0; j < 4 && j < len(pool); j++ {
+				i := (s*131 + j*977) % 4096
+				if !airStates[m.blocks[s][i]] {
+					want--
+				}
+				if !airStates[pool[j]] {
+					want++
+				}
+				m.blocks[s][i] = pool[j]
+				back.Sections[s].SetBlock(i, level.BlocksState(pool[j]))
+				if got := int(back.Sections[s].BlockCount); got != want {
+					return pbt.V("c13.save.blockcount", "a section's block count equals the number of non-air blocks it holds", "section %d: SetBlock on the loaded chunk: BlockCount=%d, it holds %d non-air blocks", s, got, want)
+				}
+			}
+		}
 		for s := range ch.Sections {
 			if !bytes.Equal(back.Sections[s].SkyLight, ch.Sections[s].SkyLight) || (back.Sections[s].SkyLight == nil) != (ch.Sections[s].SkyLight == nil) ||
 				!bytes.Equal(back.Sections[s].BlockLight, ch.Sections[s].BlockLight) || (back.Sections[s].BlockLight == nil) != (ch.Sections[s].BlockLight == nil) {
